@@ -18,15 +18,15 @@ out = ["# Sensitivity of the checks: seeded regressions", "",
        "  the first round's regressions), 20 more in a third round (asked for regressions",
        "  made of two cooperating changes or depending on state left by earlier calls), 20 more in a fourth round (capacity / boundary",
        "  paths of data structures, rarely used entry points and argument combinations, arithmetic slips), 20 more in a fifth round (error and cleanup",
-       "  paths, interplay of two features, second element / object / call of a kind), 10 more in a sixth round",
-       "  (properties C02 C06 C08 C09 C12 C14 C15 C16 C18 C20). Each agent saw only the text of one property and its own git worktree of `/repo`; nothing from",
+       "  paths, interplay of two features, second element / object / call of a kind), 20 more in a sixth round",
+       "  (one agent delivered a single regression). Each agent saw only the text of one property and its own git worktree of `/repo`; nothing from",
        "  `/verif`. Every regression compiles, passes the repository's 48 tests and comes with a demonstration that passes without and",
        "  fails with the change; all three facts were re-confirmed with `tools/verify_seeded.sh` before the regression was kept.",
        "* **own mutants** - quick plausibility mutants from the lists in DESIGN.md section 7 (not kept as files; listed below).", "",
        "`tools/mutant.sh <patch> <ID>` runs the quick tier of a check against a patched scratch copy (`VERIF_REPO`); `tools/record_seeded.py`",
        "folds the logs (`tools/logs/`) into `seeded/*/meta.json`, from which this file is generated (`tools/gen_sensitivity.py`).", "",
        "## Seeded regressions (sub-agents)", "",
-       "m1, m2: first round; m3, m4: second round (rarer triggers); m5, m6: third round (cooperating changes, state / order dependence); m7, m8: fourth round (capacity / boundary paths, rarely used entry points, arithmetic slips); m9, m10: fifth round (error / cleanup paths, interplay of two features, second element / object / call); m11, m12: sixth round (ten properties; what a careful reviewer could still miss).", "",
+       "m1, m2: first round; m3, m4: second round (rarer triggers); m5, m6: third round (cooperating changes, state / order dependence); m7, m8: fourth round (capacity / boundary paths, rarely used entry points, arithmetic slips); m9, m10: fifth round (error / cleanup paths, interplay of two features, second element / object / call); m11, m12: sixth round (what a careful reviewer could still miss).", "",
        "| id | what it breaks (one line) | checks as they were when it arrived | after strengthening | cases until the verdict |",
        "|----|---------------------------|-------------------------------------|---------------------|-------------------------|"]
 for d, title, meta in rows:
@@ -66,7 +66,7 @@ if sw:
             "96 regressions, m1-m12 of C02 C06 C08 C09 C12 C14 C15 C16): 90 caught, the other six are among the explained ones.", ""]
 out += ["", "%d of the %d were caught by the checks as they were when the regression arrived. Every miss pointed at a shape the generator did" % (first_caught, n),
         "not reach or an observation the oracle did not make; each was closed by widening the generator or the oracle (never by raising",
-        "case counts), after which all are caught - with ten exceptions that are explained in their `meta.json`:", "",
+        "case counts), after which all are caught - with fourteen exceptions that are explained in their `meta.json`:", "",
         "* **C12-m4** (a callback switches off the process-wide file restrictions) is outside what C12 quantifies over; it is caught by C16.",
         "* **C08-m10** (a merge result takes its tags from the override) is a merge matter with a set before and a write after it; C03 catches",
         "  it since it requires the documented tag inheritance.",
@@ -85,6 +85,14 @@ out += ["", "%d of the %d were caught by the checks as they were when the regres
         "* **C16-m9** (when a file violates two rules the later rule's code is returned): C16 demands *a* specific code of a violated rule, not a",
         "  precedence between them; the check accepts either.",
         "* **C19-m10** (a blank-only continuation line in the middle of a value ends the tool's listing of it): same excluded shape as C17-m8.",
+        "* **C10-m12** (econf_getGroups memoises the number of sections) only shows when a setter runs between two listings: not a read-only",
+        "  sequence, hence not C10's; the C11 check catches it.",
+        "* **C17-m12** (comment lines in front of a section header are dropped): C17 speaks of the comment lines directly preceding an entry;",
+        "  lines in front of a header are tolerated either way (detached block).",
+        "* **C19-m12** (`--delimiters=spaces` loses the vertical tab) needs a key/value line whose only separator is a vertical tab; C19's trees",
+        "  separate with blanks. Not closed (end of the session).",
+        "* **C04-m12** (stripbrackets guard without closing-bracket test) overran the heap through the scan for `]`; fix d72dbcf replaced that scan",
+        "  by a bounded copy, since then the mutation has no memory-safety effect (obsolete for C04).",
         "* **C16-m4** (restrictions evaluated on the realpath-resolved name for relative paths) is obsolete: extending C16 to relative",
         "  paths in order to catch it exposed the underlying behaviour as a genuine defect of the library (fix 39c4358); after the repair the",
         "  mutation is behaviour-preserving.", "",
@@ -168,7 +176,15 @@ out += ["", "%d of the %d were caught by the checks as they were when the regres
         "| C14-m11 | `econf_writeFile` goes through `<name>.tmp`: names of 252-255 bytes fail | C14's name cells also write a file whose name has the cell's length |",
         "| C14-m12 | ROOT_PREFIX of more than PATH_MAX bytes: snprintf return value used as offset | C14's option-item cells add a ROOT_PREFIX item of the cell's length and expect a clean NOFILE |",
         "| C15-m11 | JOIN_SAME_ENTRIES matches keys by prefix | C15's JOIN files have a key whose name starts with another key's name |",
-        "| C16-m11 | the file accepted last is not checked again when the rules change without a reset | 30% of C16's cases read the tree first under a requirement every file satisfies, then set the real rules |", "",
+        "| C16-m11 | the file accepted last is not checked again when the rules change without a reset | 30% of C16's cases read the tree first under a requirement every file satisfies, then set the real rules |",
+        "| C01-m12 | drop-ins-only mode keeps the object's CONFIG_DIRS list | C01 gives the options object a CONFIG_DIRS item in drop-ins-only mode |",
+        "| C03-m11 | empty base: the override is copied verbatim, repeated definitions and all | C03 requires a key to be listed exactly once whenever the base has it at most once |",
+        "| C03-m12 | override keys matched by djb2 hash | `Ab` and `BA` (same hash) are in C03's key pool |",
+        "| C05-m11 | only blank and tab are skipped in front of the comment character | C05 indents some comment lines with form feed, vertical tab or carriage return |",
+        "| C07-m11 | a section name that ends in `]` is written without brackets | `disk[0]` and `[disk[0]]` are section spellings of the histories; the bracketed one exposed genuine defect RC23 (fix d72dbcf) |",
+        "| C10-m11 | `econf_writeFile` stores a fallback delimiter in an object that has none | tags are part of C10's object dump; a quarter of its option-string objects keep their empty tags |",
+        "| C11-m12 | a key created through the API loses trailing blanks | C11 uses the key name `name ` (trailing blank) now and then |",
+        "| C17-m11 | whole-line comments recognised by the first comment character only (C04-m3 again, now without memory error) | the grammar can put further comment characters into the text of comment lines (C17) |", "",
         "Own mutants exposed two more gaps (both closed): a shallow copy of `comment_before_key` in `cpy_file_entry` (C03 now takes a full",
         "extended dump of the merge result after both inputs were freed, parsed inputs carry comments) and `econftool` printing at most two",
         "value lines (C19's multi-line values now have 2-4 lines).", "",
